@@ -248,7 +248,33 @@ EXTRA3 = {
 for _pid, _t in EXTRA3.items():
     if _pid in CLAIMS and _t != "-":
         EXTRA[_pid] = (EXTRA[_pid][0] + "; third round: " + _t, EXTRA[_pid][1])
+EXTRA4 = {
+    "C01": "GLOBAL-DT (both public drivers hand a scalar step unless dtlocal), VEC-LAYOUT, BC-SITE-DICT",
+    "C02": "VEC-LAYOUT (mask / reshape of vector fields), fluxes the statement does not name get the generic clauses",
+    "C03": "REST-DEFINED (time step of a state at rest), dirichlet per model registry, VEC-LAYOUT, STEP-ONE-FORMULA",
+    "C04": "LIM-CONSIST / LIM-ZERO / LIM-ODD of the provided limiters, DRV-SNAPSHOT / TS-FRESH-MAIN as premises, STEP-ONE-FORMULA, LAYOUT-INTERLEAVE",
+    "C05": "STEP-ONE-FORMULA (data-dependent conditions explored both ways), FIELD-DEEPCOPY (constructor keeps time and tag), classes the statement does not name: consistency and reported order",
+    "C06": "STEP-ONE-FORMULA, LAYOUT-INTERLEAVE, absolute perturbations, whole-array stores; JAC-GUARD over a boolean abstraction of the guard",
+    "C07": "DRV-STOP over the ordering abstraction of the stop test, FIELD-DEEPCOPY of the constructor arguments",
+    "C08": "EFF-JAC-CACHE (known finding F19), JAC-GUARD / JAC-LINEAR, MON-DISPATCH, residual recomputed on every recording path, MON-PURE from effect summaries, DRV-DT-MIN of solve_legacy",
+    "C10": "DRV-DT-MIN of both public drivers, wave-speed estimates found without their local names",
+    "C11": "LIM-CONSIST / LIM-ZERO / LIM-ODD of the provided limiters, block-slice (vectorised row loop) decoding",
+    "C12": "LIM-FRESH (result is not shared storage), scalar / array tests explored both ways",
+    "C13": "implicit-system layout clauses (tiled / column-scaled / variable-major), NOZ-COMPOSE, VEC-LAYOUT, BC-SITE-DICT, STR-IDENTITY",
+    "C14": "POINTWISE of the flux kernels (break in element loops), GRAD-2D, STR-IDENTITY",
+    "C15": "CTOR-PARAM, LAYOUT-AGREE refutes loop-free slices with grid-dependent offsets (and proves the block form), VEC-LAYOUT",
+    "C16": "BC-SITE-DICT (call site reads only 'type' from the user's dictionary), dirichlet per model registry, VEC-LAYOUT",
+    "C17": "variables the statement does not name get the generic clauses (point-wise, covariant, homogeneous)",
+    "C18": "DRV-DT-MIN of solve_legacy (scalar minimum of the current state's time step)",
+    "C19": "-",
+    "C20": "float-step np.arange (count decided by rounding), tolerance comparisons in the averages explored both ways, generator objects kept as state",
+}
+for _pid, _t in EXTRA4.items():
+    if _pid in CLAIMS and _t != "-":
+        EXTRA[_pid] = (EXTRA[_pid][0] + "; fourth round: " + _t, EXTRA[_pid][1])
 EXTRA["C12"] = (EXTRA["C12"][0], EXTRA["C12"][1] + ", forward rounding-error abstract domain")
+for _pid in ("C07", "C06", "C08"):
+    EXTRA[_pid] = (EXTRA[_pid][0], EXTRA[_pid][1] + ", evaluation of control code over finite (ordering / boolean) abstractions")
 for _pid, (_t, _tech) in EXTRA.items():
     if _pid in CLAIMS:
         CLAIMS[_pid]["text"] = CLAIMS[_pid]["text"] + " Also decided (added after the second round of seeded changes): " + _t + "."
